@@ -92,6 +92,9 @@ pub fn footers() -> Vec<Option<String>> {
         Some("a.b\0c.".into()),
         Some("K".repeat(1024)),
         Some("F".into()),
+        // 6-bit groups 62 and 63 at several alignments: the base64url symbols '-' and '_' (where the URL-safe
+        // and the standard alphabet differ)
+        Some("xx?xx>xx~ \u{00ff}\u{00fb}\u{00ef}\u{00be}".into()),
     ]
 }
 
